@@ -97,6 +97,9 @@ def build(rnd, tier, flags):
     case = {"src": lay.text, "fixed": fixed, "expected": _expected(flat, lay, fixed),
             "comments": [[ln, txt, kind] for ln, txt, kind in sorted(lay.comments)], "walk": walk,
             "keep_comments": r.chance(50), "meta": {"features": sorted(lay.features)}}
+    # per-call override axis: the walking reader is created with the OPPOSITE comment default and every
+    # get_item() passes ignore_comments explicitly (the documented per-call override of the default)
+    case["override"] = bool(walk) and r.chance(40)
     return case, progs.excluded_counts(g, lay)
 
 
@@ -243,7 +246,16 @@ def evaluate(case):
             return Result(False, "comment-order", nontrivial, labels, {"order": order[:40]})
     # (b) walk against the list model
     if walk:
-        reader2 = FortranStringReader(case["src"], ignore_comments=not keep)
+        # in fixed form the constructor default also decides how comment lines inside continued statements are
+        # read (below the per-call level), so "keep comments by per-call override" is only demanded in free form
+        override = bool(case.get("override")) and not (keep and case["fixed"])
+        if override:
+            labels.append("walk-override")
+            reader2 = FortranStringReader(case["src"], ignore_comments=keep)
+            _get = lambda: reader2.get_item(ignore_comments=not keep)  # noqa: E731
+        else:
+            reader2 = FortranStringReader(case["src"], ignore_comments=not keep)
+            _get = reader2.get_item
         model = [_describe(x) for x in items]
         seen = {}
         cursor = 0
@@ -251,7 +263,7 @@ def evaluate(case):
         for op, k in walk:
             if op == "get":
                 for _ in range(k):
-                    it = reader2.get_item()
+                    it = _get()
                     if cursor >= len(model):
                         if it is not None:
                             return Result(False, "walk-item-after-end", nontrivial, labels, {"got": _describe(it)})
@@ -270,7 +282,15 @@ def evaluate(case):
                 for _ in range(min(k, len(taken))):
                     reader2.put_item(taken.pop())
                     cursor -= 1
-        rest = [_describe(x) for x in reader2]
+        if override:
+            rest = []
+            while True:
+                it = _get()
+                if it is None:
+                    break
+                rest.append(_describe(it))
+        else:
+            rest = [_describe(x) for x in reader2]
         if rest != model[cursor:]:
             return Result(False, "walk-drain-differs", nontrivial, labels,
                           {"cursor": cursor, "expected_len": len(model) - cursor, "got_len": len(rest)})
